@@ -15,7 +15,9 @@
         expanded size of all headers exceeds 65535
     h2_send_1xx() / h2_send_end_stream_trailers() / h2_send_headers_block()
                                        -> `interimFields` / `trailerFields` / `blockFields`
-    h2_parse_frame_settings(SETTINGS_HEADER_TABLE_SIZE) -> `peerTableSize`
+    h2_parse_frame_settings(SETTINGS_HEADER_TABLE_SIZE), h2_send_hpack_tsz_update()
+                                       -> `peerTableSize`, `EncGlue` (the dynamic table size
+                                          updates announced before the next header block)
 
   The id maps are regenerated from h2.c / http_header.c on every run
   (LtVerif/Extracted/H2HeaderMaps.lean).
@@ -232,6 +234,29 @@ def trailerFields (text : Bytes) : Option (List Header) :=
 /-- h2_parse_frame_settings(): what the encoder's table size becomes when the
     peer announces SETTINGS_HEADER_TABLE_SIZE = v (never above the default 4096) -/
 def peerTableSize (v : Nat) : Nat := min v 4096
+
+/-- the part of h2con that drives the HPACK "dynamic table size update" lighttpd
+    owes its peer (RFC 7541 4.2): s_header_table_size, hpack_tsz_update,
+    hpack_tsz_min -/
+structure EncGlue where
+  size : Nat := 4096
+  pending : Bool := false
+  tszMin : Nat := 0
+deriving Repr, DecidableEq
+
+/-- h2_parse_frame_settings(), case SETTINGS_HEADER_TABLE_SIZE -/
+def EncGlue.settings (g : EncGlue) (v : Nat) : EncGlue :=
+  let v' := peerTableSize v
+  if v' = g.size then g
+  else { size := v', pending := true, tszMin := if ¬ g.pending ∨ v' < g.tszMin then v' else g.tszMin }
+
+/-- h2_send_hpack_tsz_update(): the sizes announced at the start of the next
+    header block (smallest since the prior block, then the final one) -/
+def EncGlue.updates (g : EncGlue) : List Nat :=
+  if g.pending then (if g.tszMin = g.size then [g.size] else [g.tszMin, g.size]) else []
+
+/-- after the block went out -/
+def EncGlue.sent (g : EncGlue) : EncGlue := { g with pending := false }
 
 /-! ### request direction: what h2_recv_headers() does with a complete header block
 
